@@ -1231,7 +1231,11 @@ theorem step_effD (s : St) (e : Ev) : EffD s.sessionStarted (step s e) := by
 /-! ### at most one `connected` between two `disconnected` -/
 
 /-- **Conformance hypothesis**: while a session is established the server sends neither a stream header nor stream
-features (both restart negotiation) -/
+features (both restart negotiation).  A CONFORMING server can never violate it: RFC 6120 lets a server send a header and
+features only in answer to a stream (re)start by the client, and the client restarts the stream only during negotiation (after
+STARTTLS / SASL), never inside a session.  So `connected_at_most_once_per_connection` without this hypothesis fails only against
+a misbehaving server (`openSession` is not guarded; the example in `Props/C10.lean` shows it) — a robustness gap, not a violation
+of C10, whose reconnect clause is about conforming servers; no finding is registered for it. -/
 def noNegotiationInSession (s : St) : Ev → Prop
   | .recv (.features _) => s.sessionStarted = false
   | .recv (.header v _) =>
